@@ -147,19 +147,19 @@ theorem interpDT_tupleVariant (ext : Ext) (ufs : UFields) (mode : UnionMode) (n 
       split at h <;> simp_all [fail]
     case binary =>
       simp only at h ⊢
-      cases hh : u8All xs <;> rw [hh] at h <;> simp [bind, Except.bind, pure, Except.pure] at h ⊢
+      cases hh : specBytes xs <;> rw [hh] at h <;> simp [bind, Except.bind, pure, Except.pure] at h ⊢
       exact h
     case largeBinary =>
       simp only at h ⊢
-      cases hh : u8All xs <;> rw [hh] at h <;> simp [bind, Except.bind, pure, Except.pure] at h ⊢
+      cases hh : specBytes xs <;> rw [hh] at h <;> simp [bind, Except.bind, pure, Except.pure] at h ⊢
       exact h
     case binaryView =>
       simp only at h ⊢
-      cases hh : u8All xs <;> rw [hh] at h <;> simp [bind, Except.bind, pure, Except.pure] at h ⊢
+      cases hh : specBytes xs <;> rw [hh] at h <;> simp [bind, Except.bind, pure, Except.pure] at h ⊢
       exact h
     case fixedSizeBinary k =>
       simp only at h ⊢
-      cases hh : u8All xs <;> rw [hh] at h <;> simp [bind, Except.bind, pure, Except.pure] at h ⊢
+      cases hh : specBytes xs <;> rw [hh] at h <;> simp [bind, Except.bind, pure, Except.pure] at h ⊢
       split at h <;> simp_all [fail]
     all_goals (simp only [fail] at h; cases h)
 
@@ -171,11 +171,11 @@ theorem FieldsSkel.next {pf : SS → R SS} (h : ∀ s1 s2, pf s1 = .ok s2 → SS
 
 theorem pushStructEntries_keys (ext : Ext) : ∀ (es : SEntries) (s s' : SS), pushStructEntries ext s es = .ok s' →
     keysAreStrings es = .ok ()
-  | .nil, _, _, _ => by simp [keysAreStrings]
+  | .nil, _, _, _ => by simp [keysAreStrings, specKey_eq, normErr_ok, normErr_error]
   | .cons k x rest, s, s', h => by
     simp only [pushStructEntries] at h
     obtain ⟨key, hk, h⟩ := (bind_ok _ _ _).1 h
-    simp only [keysAreStrings, hk, bind, Except.bind]
+    simp only [keysAreStrings, specKey_eq, normErr_ok, normErr_error, hk, bind, Except.bind]
     split at h
     · exact pushStructEntries_keys ext rest _ s' h
     · obtain ⟨s1, _, h⟩ := (bind_ok _ _ _).1 h
@@ -183,15 +183,15 @@ theorem pushStructEntries_keys (ext : Ext) : ∀ (es : SEntries) (s s' : SS), pu
 
 theorem pushStructOps_keys (ext : Ext) : ∀ (ops : SMapOps) (s s' : SS), pushStructOps ext s ops = .ok s' →
     opsKeysAreStrings ops = .ok ()
-  | .nil, _, _, _ => by simp [opsKeysAreStrings]
+  | .nil, _, _, _ => by simp [opsKeysAreStrings, specKey_eq, normErr_ok, normErr_error]
   | .key k rest, s, s', h => by
     rw [pushStructOps] at h
     obtain ⟨key, hk, h⟩ := (bind_ok _ _ _).1 h
-    simp only [opsKeysAreStrings, hk, bind, Except.bind]
+    simp only [opsKeysAreStrings, specKey_eq, normErr_ok, normErr_error, hk, bind, Except.bind]
     exact pushStructOps_keys ext rest _ s' h
   | .value x rest, s, s', h => by
     rw [pushStructOps] at h
-    simp only [opsKeysAreStrings]
+    simp only [opsKeysAreStrings, specKey_eq, normErr_ok, normErr_error]
     split at h
     · obtain ⟨s1, _, h⟩ := (bind_ok _ _ _).1 h
       exact pushStructOps_keys ext rest _ s' h
@@ -737,7 +737,7 @@ theorem pushStructEntries_interp (ext : Ext) (nar : Bool) : ∀ (es : SEntries) 
     simp only [pushStructEntries] at h; cases h
     have := hm.unique hm'; subst this
     intro j f _
-    exact ⟨[], by simp [interpByKey], by simp⟩
+    exact ⟨[], by simp [interpByKey, keyOf_eq], by simp⟩
   | .cons k x rest, fs0, s, s', adds, adds', sfs, hraw, hnf, hm, hm', hsl, h, hsm => by
     have hraw' : (rawOK nar k = true ∧ rawOK nar x = true) ∧ rawOKe nar rest = true := by simpa only [rawOK_some, rawOK_newtypeStruct, rawOK_newtypeVariant, rawOK_seq, rawOK_tuple, rawOK_tupleStruct, rawOK_tupleVariant, rawOK_record, rawOK_structVariant, rawOK_map, rawOK_mapRaw, rawOKs_cons, rawOKf_cons, rawOKe_cons, Bool.and_eq_true] using hraw
     simp only [pushStructEntries] at h
@@ -751,7 +751,7 @@ theorem pushStructEntries_interp (ext : Ext) (nar : Bool) : ∀ (es : SEntries) 
       obtain ⟨found, hf, ha⟩ := ih j f hj
       refine ⟨found, ?_, ha⟩
       have hne := key_none hm.nodup hnone (names_at hsl hj)
-      simp only [interpByKey, hf, bind, Except.bind, hopt, hne]; rfl
+      simp only [interpByKey, keyOf_eq, hf, bind, Except.bind, hopt, hne]; rfl
     · rename_i idx hidx
       obtain ⟨s1, h1, h⟩ := (bind_ok _ _ _).1 h
       obtain ⟨c, m, c', lv, hget, _, hpc, hwc, hsc, hdec, hm1, hun, _, hlta, hfs1, _⟩ :=
@@ -776,11 +776,11 @@ theorem pushStructEntries_interp (ext : Ext) (nar : Bool) : ∀ (es : SEntries) 
         rw [if_pos rfl] at ha
         refine ⟨lv :: found, ?_, by rw [ha, hun]; rfl⟩
         simp only [decide_true] at hk
-        simp only [interpByKey, hf, bind, Except.bind, hopt, hk, if_true, hlv]; rfl
+        simp only [interpByKey, keyOf_eq, hf, bind, Except.bind, hopt, hk, if_true, hlv]; rfl
       · rw [if_neg hij] at ha
         refine ⟨found, ?_, ha⟩
         simp only [hij, decide_false] at hk
-        simp only [interpByKey, hf, bind, Except.bind, hopt, hk]; rfl
+        simp only [interpByKey, keyOf_eq, hf, bind, Except.bind, hopt, hk]; rfl
 
 /-- a struct builder receiving a raw key/value call stream that alternates: the fields gather what the pairs give
 them by key (`fields.length < UNKNOWN_KEY`: no field index is the sentinel) -/
@@ -794,7 +794,7 @@ theorem pushStructOps_interp (ext : Ext) (nar : Bool) : ∀ (ops : SMapOps) (fs0
     simp only [pushStructOps] at h; cases h
     have := hm.unique hm'; subst this
     intro j f _
-    exact ⟨[], by simp [interpByKeyOps], by simp⟩
+    exact ⟨[], by simp [interpByKeyOps, keyOf_eq], by simp⟩
   | .key _ .nil, _, _, _, _, _, _, _, hraw, _, _, _, _, _, _, _ => by simp [ssaO] at hraw
   | .key _ (.key _ _), _, _, _, _, _, _, _, hraw, _, _, _, _, _, _, _ => by simp [ssaO] at hraw
   | .value _ _, _, _, _, _, _, _, _, hraw, _, _, _, _, _, _, _ => by simp [ssaO] at hraw
@@ -815,7 +815,7 @@ theorem pushStructOps_interp (ext : Ext) (nar : Bool) : ∀ (ops : SMapOps) (fs0
       obtain ⟨found, hf, ha⟩ := ih j f hj
       refine ⟨found, ?_, ha⟩
       have hne := key_none hm.nodup hidx (names_at hsl hj)
-      simp only [interpByKeyOps, hf, bind, Except.bind, hopt, hne]; rfl
+      simp only [interpByKeyOps, keyOf_eq, hf, bind, Except.bind, hopt, hne]; rfl
     | some idx =>
       have hlt : idx < s.fields.length := by rw [← BL.names_length]; exact indexOfName_lt' hidx
       have hneq : (idx != UNKNOWN_KEY) = true := by simp; omega
@@ -846,11 +846,11 @@ theorem pushStructOps_interp (ext : Ext) (nar : Bool) : ∀ (ops : SMapOps) (fs0
         rw [if_pos rfl] at ha
         refine ⟨lv :: found, ?_, by rw [ha, hun]; rfl⟩
         simp only [decide_true] at hk
-        simp only [interpByKeyOps, hf, bind, Except.bind, hopt, hk, if_true, hlv]; rfl
+        simp only [interpByKeyOps, keyOf_eq, hf, bind, Except.bind, hopt, hk, if_true, hlv]; rfl
       · rw [if_neg hij] at ha
         refine ⟨found, ?_, ha⟩
         simp only [hij, decide_false] at hk
-        simp only [interpByKeyOps, hf, bind, Except.bind, hopt, hk]; rfl
+        simp only [interpByKeyOps, keyOf_eq, hf, bind, Except.bind, hopt, hk]; rfl
 
 /-- a Map builder receiving a raw key/value call stream (accepted ⇒ alternating): entry by entry -/
 theorem pushMapOps_interp (ext : Ext) (nar : Bool) : ∀ (ops : SMapOps) (offs : List Int) (ks vs : B) (r : List Int × B × B)
